@@ -40,7 +40,10 @@ RULE = ('seeded generator over the 9 methods of the test interface c14svc (strin
         'sequences over TWO unrelated inherited services (SvcA extends BaseA, SvcB extends BaseB in harness/ifaces/c14inh) that declare '
         'same-named methods with different signatures, used alternately in one process; a service whose parameter field ids are NOT in '
         'declaration order (descending, shuffled, with gaps: harness/ifaces/c14ord) called positionally, by keyword and mixed - the '
-        'Processor must receive each value under the parameter name the caller bound it to. '
+        'Processor must receive each value under the parameter name the caller bound it to; audit additions: calls issued from inside '
+        'the completion callback of the previous call, two instances of the same sink chain used alternately, a timed-out call inside a '
+        'sequence (transport reconnects), aliased argument objects, a loopback transport completing inline, one split at every byte '
+        'boundary, connection reset (recv raises) after k bytes, 20-40 call sequences, lengths around 2^8/2^16 and ints around 2^16/2^24/2^31. '
         'non-trivial = the call reached the wire and a reply was read; distinct by canonical JSON of (case, observation)')
 TRUSTED = ['Thrift library 0.24 (TBinaryProtocol pure Python, fastbinary, TApplicationException) and the generated-style '
            'Processor/Client of harness/ifaces/c14svc (written by hand in the compiler\'s layout) as the server-side oracle',
@@ -163,21 +166,30 @@ COQ_HEADER = _coq_header()
 # ---------------------------------------------------------------------------------------------
 # spec-directed conversions: JSON <-> python objects <-> Coq tval
 # ---------------------------------------------------------------------------------------------
-def from_json(j, ttype, targs):
+def from_json(j, ttype, targs, memo=None):
+  """memo (a dict): equal sub-values become THE SAME python object (aliasing: one Item passed in several places)."""
   if j is None:
     return None
   if ttype == T_STRING:
     return bytes(j) if targs == 'BINARY' else j
+  if ttype in (T_LIST, T_STRUCT) and memo is not None:
+    key = (ttype, repr(targs)[:200], C.canon(j))
+    if key in memo:
+      return memo[key]
   if ttype == T_LIST:
-    return [from_json(x, targs[0], targs[1]) for x in j]
-  if ttype == T_STRUCT:
+    out = [from_json(x, targs[0], targs[1], memo) for x in j]
+  elif ttype == T_STRUCT:
     cls, spec = targs[0], targs[0].thrift_spec
     kw = {}
     for e in spec:
       if e is not None and e[2] in j:
-        kw[e[2]] = from_json(j[e[2]], e[1], e[3])
-    return cls(**kw)
-  return j
+        kw[e[2]] = from_json(j[e[2]], e[1], e[3], memo)
+    out = cls(**kw)
+  else:
+    return j
+  if memo is not None:
+    memo[key] = out
+  return out
 
 
 class Unexpected(Exception):
@@ -263,9 +275,9 @@ EDGE = {T_I16: (-2 ** 15, 2 ** 15 - 1), T_I32: (-2 ** 31, 2 ** 31 - 1), T_I64: (
 
 
 def rand_text(r, big=False):
-  n = r.choice([0, 0, 1, 2, 3, 5, 8, 13, 40])
+  n = r.choice([0, 0, 1, 2, 3, 5, 8, 13, 40, r.choice([127, 128, 129, 255, 256, 257])])
   if big:
-    n = r.choice([300, 1000, 3000])
+    n = r.choice([300, 1000, 3000, 255, 256, 257])
   a = r.choice(ALPH + [''.join(ALPH)])
   return ''.join(r.choice(a) for _ in range(n))
 
@@ -274,7 +286,10 @@ def rand_int(r, ttype, bad=False):
   lo, hi = EDGE[ttype]
   if bad:
     return r.choice([hi + 1, lo - 1, hi + r.randrange(1, 1000), 2 ** 70])
-  return r.choice([0, 1, -1, lo, hi, lo + 1, hi - 1, 127, 128, 255, 256, -128, -129, r.randrange(lo, hi + 1), r.randrange(-1000, 1000)])
+  edges = [0, 1, -1, lo, hi, lo + 1, hi - 1, 127, 128, 255, 256, -128, -129, r.randrange(lo, hi + 1), r.randrange(-1000, 1000)]
+  edges += [x for x in (32767, 32768, 65535, 65536, 65537, 2 ** 24 - 1, 2 ** 24, 2 ** 24 + 1, -2 ** 24, 2 ** 31 - 1, 2 ** 31, 2 ** 32,
+                        2 ** 32 - 1, -2 ** 31 - 1, 2 ** 62) if lo <= x <= hi]
+  return r.choice(edges)
 
 
 def gen_value(r, ttype, targs, depth=0, flags=None):
@@ -297,7 +312,7 @@ def gen_value(r, ttype, targs, depth=0, flags=None):
       return 'a\ud800b'
     return rand_text(r, big=bool(flags.get('big')) and r.random() < 0.5)
   if ttype == T_LIST:
-    n = r.choice([0, 0, 1, 2, 3, 7] + ([60] if depth == 0 else []))
+    n = r.choice([0, 0, 1, 2, 3, 7] + ([60, r.choice([255, 256, 257])] if depth == 0 and targs[0] != T_STRUCT else []))
     return [gen_value(r, targs[0], targs[1], depth + 1, flags) for _ in range(n)]
   if ttype == T_STRUCT:
     out = {}
@@ -312,7 +327,7 @@ def gen_value(r, ttype, targs, depth=0, flags=None):
   raise ValueError(ttype)
 
 
-CHUNK_KINDS = ['whole', 'ones', 'pre1', 'pre2', 'pre3', 'rand', 'rand', 'frameend', 'eof', 'eofend', 'twos']
+CHUNK_KINDS = ['whole', 'ones', 'pre1', 'pre2', 'pre3', 'rand', 'rand', 'frameend', 'eof', 'eofend', 'twos', 'reset']
 MANGLES = ['nonstrict', 'badversion', 'trunc', 'negsize', 'zerosize', 'rename_fire', 'rename_ping', 'rename_echo',
            'extrafield', 'wrongtype', 'trailing', 'seqid', 'dupsuccess', 'appempty']
 
@@ -488,6 +503,97 @@ def gen_two_ifaces(r, method=None, first=None, n=None):
   return {'kind': 'seq', 'pattern': 'two-interfaces', 'sock': r.choice(['varz', 'scales']), 'calls': ops}
 
 
+def _dup_lists(j, r):
+  """makes the elements of (some) lists equal, so that with 'alias' they are one and the same object"""
+  if isinstance(j, list):
+    j = [_dup_lists(x, r) for x in j]
+    if len(j) >= 2 and r.random() < 0.7:
+      j = [j[0]] * len(j)
+    return j
+  if isinstance(j, dict):
+    return {k: _dup_lists(v, r) for k, v in j.items()}
+  return j
+
+
+def gen_audit(tier, seed):
+  """Histories and inputs added by the generator audit: re-entrant issue from a completion callback, two instances of
+  the same sink chain, a timed-out call in the middle of a sequence (the transport reconnects), aliased argument
+  objects, a transport that completes inline, one split at every byte boundary, long-lived sinks, 2^16 boundaries."""
+  _use()
+  q = tier == 'quick'
+  out = []
+  twoway = [m for m in _methods() if _result_cls(m) is not None]
+  for j in range(40 if q else 400):                       # 1. re-entrancy
+    r = C.case_rng(seed, PID + 'reent', j)
+    c = gen_seq(r)
+    c.update(reentrant=True, pattern='reentrant:' + c['pattern'], sock=r.choice(['varz', 'scales', 'inline']))
+    out.append(c)
+  for j in range(40 if q else 400):                       # 4. two instances of the same chain, used alternately
+    r = C.case_rng(seed, PID + 'inst', j)
+    c = gen_seq(r, methods=[r.choice(twoway) for _ in range(r.choice([3, 4, 5, 6]))])
+    for i, op in enumerate(c['ops']):
+      op['inst'] = i % 2 if r.random() < 0.7 else r.choice([0, 1])
+    c['pattern'] = 'two-instances:' + c['pattern']
+    out.append(c)
+  for j in range(30 if q else 300):                       # 3. second life: a call times out, the transport reconnects
+    r = C.case_rng(seed, PID + 'tmo', j)
+    c = gen_seq(r)
+    k = r.randrange(0, len(c['ops']))
+    t = _op_of(gen_rpc(r, 1, method=r.choice(twoway), size='small'), r)
+    t['deadline_past'] = True
+    c['ops'].insert(k, t)
+    c['pattern'] = 'timeout-inside:' + c['pattern']
+    out.append(c)
+  for j in range(40 if q else 400):                       # 4. aliasing: the same object in several places
+    r = C.case_rng(seed, PID + 'alias', j)
+    c = gen_rpc(r, 2, method=r.choice(['wrap', 'wrap', 'xform', 'mix']), behaviour='ret', size='small')
+    c['args'] = [_dup_lists(a, r) for a in c['args']]
+    c['kwargs'] = {k: _dup_lists(a, r) for k, a in c['kwargs'].items()}
+    if c['method'] == 'wrap':
+      box = (c['args'] or [None])[0] or c['kwargs'].get('box')
+      if isinstance(box, dict) and box.get('item') is not None:
+        box['items'] = [box['item']] * r.choice([1, 2, 3])
+    c.update(alias=True, mangle=None)
+    out.append(c)
+  for j in range(80 if q else 800):                       # 10. a transport that completes inside the call
+    r = C.case_rng(seed, PID + 'inline', j)
+    c = gen_rpc(r, 1)
+    c.update(sock='inline', mangle=None, extra='none', ops=[{'k': 'whole', 'seed': 0}])
+    out.append(c)
+  for j in range(20 if q else 200):
+    r = C.case_rng(seed, PID + 'inlineseq', j)
+    c = gen_seq(r)
+    c.update(sock='inline', pattern='inline:' + c['pattern'])
+    out.append(c)
+  k = 0
+  for m, b in [('echo', 'ret'), ('xform', 'declared'), ('ping', 'ret'), ('mix', 'app'), ('gap', 'declared'), ('wrap', 'ret')]:
+    for sock in ['varz', 'scales']:                        # 7. one split at every byte boundary of the reply
+      r = C.case_rng(seed, PID + 'cut', k)
+      k += 1
+      if q and k % 2:
+        continue
+      c = gen_rpc(r, 1, method=m, behaviour=b, size='small')
+      c.update(sock=sock, mangle=None, extra=r.choice(['none', 'frame']),
+               ops=[{'k': 'cut', 'at': a, 'seed': 0} for a in range(1, 90 if q else 160)])
+      out.append(c)
+  for j in range(3 if q else 30):                         # 9. a long-lived sink
+    r = C.case_rng(seed, PID + 'long', j)
+    c = gen_seq(r, pattern='mixed', methods=[r.choice(twoway) for _ in range(r.randrange(20, 41))])
+    c['pattern'] = 'long'
+    if r.random() < 0.5:
+      c['reentrant'] = True
+    out.append(c)
+  for j, n in enumerate([65535, 65536, 65537] if q else [65535, 65536, 65537, 65531, 65532, 65533, 65534, 2 ** 16 - 20, 2 ** 17]):
+    r = C.case_rng(seed, PID + '64k', j)                  # 5. values around 64 KiB (python-only: not sent to Coq)
+    c = gen_rpc(r, 2, method='echo', behaviour='ret')
+    c['args'], c['kwargs'] = ['x' * n], {}
+    c['handler'] = {'do': 'ret', 'value': 'y' * (n - j)}
+    c.update(mangle=None, ops=[{'k': 'whole', 'seed': 1}, {'k': 'rand', 'seed': 7 + j}, {'k': 'cut', 'at': 65536, 'seed': 0}])
+    out.append(c)
+  _use()
+  return out
+
+
 def gen_cases(tier, seed):
   _use()
   n = 1300 if tier == 'quick' else 14000
@@ -573,6 +679,7 @@ def gen_cases(tier, seed):
         out.append(c)
   out.append({'kind': 'timeout', 'method': 'echo', 'sock': 'varz'})
   out.append({'kind': 'timeout', 'method': 'ping', 'sock': 'scales'})
+  out.extend(gen_audit(tier, seed))
   for j in range(n):
     r = C.case_rng(seed, PID, j)
     c = gen_rpc(r, nchunk)
@@ -680,6 +787,10 @@ class Script(object):
       if not self.queue:
         return b''
       self.cur = self.queue.pop(0)
+      if self.cur < 0:
+        self.cur = 0
+        self.queue.insert(0, -1)
+        raise ConnectionResetError(104, 'Connection reset by peer')
       if self.cur == 0:
         return b''
     k = min(n, self.cur)
@@ -721,6 +832,7 @@ def setup():
   _S.update(gevent=gevent, ss=ss, SocketTransportSink=SocketTransportSink, ThriftSerializerSink=ThriftSerializerSink,
             MessageDispatcher=MessageDispatcher, ScalesError=ScalesError, MethodCallMessage=MethodCallMessage,
             ScalesTimeout=ScalesTimeout, SinkProperties=SinkProperties, ChannelState=ChannelState,
+            MethodReturnMessage=__import__('scales.message', fromlist=['x']).MethodReturnMessage,
             Endpoint=Endpoint, RawProvider=RawProvider, ready=True)
 
 
@@ -883,6 +995,13 @@ def sizes_for(ch, total, frame_len):
     if cur:
       out.append(cur)
     return out
+  if k == 'cut':                            # exactly one split, at byte `at`
+    a = max(1, min(ch['at'], total - 1)) if total > 1 else total
+    return [a] + ([total - a] if total > a else [])
+  if k == 'reset':                          # the peer resets the connection after `at` bytes: recv raises (-1 marker)
+    at = r.randrange(0, total) if r.random() < 0.7 else r.choice([0, 1, 3, 4, 5, max(0, min(total, frame_len) - 1)])
+    at = min(at, total)
+    return ([at] if at else []) + [-1]
   if k in ('eof', 'eofend'):
     at = r.randrange(0, total) if r.random() < 0.7 else r.choice([0, 1, 2, 3, 4, 5, max(0, min(total, frame_len) - 1)])
     at = min(at, total)
@@ -913,6 +1032,47 @@ def _make_sink(sock_kind):
   ser = _S['ThriftSerializerSink'].Builder()
   ser.next_provider = _transport_provider(sock_kind)
   return ser.CreateSink(_sink_props())
+
+
+class Loopback(object):
+  """A transport that completes INSIDE AsyncProcessRequest (as a mock/in-process transport or a failing sink does):
+  the request goes to the peer and the reply stream is handed back up the sink stack before the call returns.
+  The framing is the harness's own here (pack('!i')), only the serializer sink and the response path are scales'."""
+
+  def __init__(self):
+    from scales.observable import Observable
+    from scales.asynchronous import AsyncResult
+    from scales.compat import BytesIO
+    self.on_faulted = Observable()
+    self._AR, self._BytesIO = AsyncResult, BytesIO
+    self.state = _S['ChannelState'].Open
+
+  def CreateSink(self, properties):
+    return self
+
+  def Open(self):
+    ar = self._AR()
+    ar.set()
+    return ar
+
+  def Close(self):
+    pass
+
+  def AsyncProcessRequest(self, sink_stack, msg, stream, headers):
+    script = FakeSocket.current
+    payload = stream.getvalue()
+    script.sent.append(struct.pack('!i', len(payload)) + payload)
+    script.stream, script.sizes = script.responder(b''.join(script.sent))
+    script.queue = []
+    data = script.stream
+    if len(data) < 4:
+      err = EOFError()                   # the peer sent nothing (oneway): what a transport reports as a fault
+      self.on_faulted.Set(err)
+      sink_stack.AsyncProcessResponseMessage(_S['MethodReturnMessage'](error=err))
+      return
+    sz = struct.unpack('!i', data[:4])[0]
+    script.pos = 4 + sz
+    sink_stack.AsyncProcessResponseStream(self._BytesIO(data[4:4 + sz]))
 
 
 class Router(object):
@@ -965,7 +1125,12 @@ class Session(object):
     FakeSocket.current = Script(lambda written: (b'', []), None)
     self.faults = {}
     self.fakes = []
-    if connections == 1:
+    if sock_kind == 'inline':
+      ser = _S['ThriftSerializerSink'].Builder()
+      ser.next_provider = Loopback()
+      self.sink = ser.CreateSink(_sink_props())
+      self.transports = [self.sink.next_sink]
+    elif connections == 1:
       self.sink = _make_sink(sock_kind)
       self.transports = [self.sink.next_sink]
     else:
@@ -978,7 +1143,7 @@ class Session(object):
       self.faults[k] = []
       t.on_faulted.Subscribe(lambda v, k=k: self.faults[k].append(type(v).__name__))
       t.Open().get(timeout=5)
-      self.fakes.append(FakeSocket.created[-1])
+      self.fakes.append(FakeSocket.created[-1] if FakeSocket.created else None)
     self.Event = gevent.event.Event
     self.started = 0
 
@@ -1025,11 +1190,14 @@ class Session(object):
       FakeSocket.current = script
     nfaults = len(self.faults[k])
     aspec = _params(method)
-    args = tuple(from_json(a, e[1], e[3]) for a, e in zip(case['args'], aspec))
+    memo = {} if case.get('alias') else None      # alias: equal sub-values are one and the same object
+    args = tuple(from_json(a, e[1], e[3], memo) for a, e in zip(case['args'], aspec))
     by = {e[2]: e for e in aspec}
-    kwargs = {kk: from_json(v, by[kk][1], by[kk][3]) for kk, v in case['kwargs'].items()}
+    kwargs = {kk: from_json(v, by[kk][1], by[kk][3], memo) for kk, v in case['kwargs'].items()}
     msg = S['MethodCallMessage'](_iface().Iface, method, args, kwargs)
     deadline = case.get('deadline')
+    if case.get('deadline_past'):
+      deadline = time.time() - 1.0
     ar = S['MessageDispatcher'].StaticDispatchMessage(self.sink, None, time.time(), deadline, msg)
     return dict(ar=ar, script=script, record=record, gate=gate, k=k, nfaults=nfaults, method=method)
 
@@ -1101,14 +1269,45 @@ def run_impl(case):
     return {'runs': [_one_run(c, {'k': 'whole', 'seed': 0})]}
   if case['kind'] == 'seq':
     # several calls, in order, through ONE sink chain instance (and one connection) per interface
+    # (op['inst'] selects one of several instances of the same interface's sink chain in this process)
+    gevent = _S['gevent']
     sessions = {}
     runs = []
+    ops = _ops(case)
+
+    def session_of(op):
+      key = (op.get('iface') or 'c14svc', op.get('inst', 0))
+      if key not in sessions:
+        sessions[key] = Session(case['sock'], key[0])
+      return sessions[key]
     try:
-      for op in _ops(case):
-        name = op.get('iface') or 'c14svc'
-        if name not in sessions:
-          sessions[name] = Session(case['sock'], name)
-        runs.append(sessions[name].call(_call_case(case, op), op['ch']))
+      if case.get('reentrant'):
+        # every call but the first is issued from INSIDE the completion callback of the one before it
+        for op in ops:
+          session_of(op)
+        states = [None] * len(ops)
+        errors = []
+
+        def issue(i):
+          try:
+            st = session_of(ops[i]).start(_call_case(case, ops[i]), ops[i]['ch'])
+            states[i] = st
+            if i + 1 < len(ops):
+              st['ar'].rawlink(lambda _ar: issue(i + 1))
+          except BaseException as e:      # would otherwise vanish in the hub
+            errors.append('%s: %s' % (type(e).__name__, e))
+        issue(0)
+        for i, op in enumerate(ops):
+          for _ in range(2000):
+            if states[i] is not None or errors:
+              break
+            gevent.sleep(0.001)
+          if states[i] is None:
+            raise RuntimeError('call %d was never issued from the completion callback: %s' % (i, errors))
+          runs.append(session_of(op).finish(states[i]))
+      else:
+        for op in ops:
+          runs.append(session_of(op).call(_call_case(case, op), op['ch']))
     finally:
       for ses in sessions.values():
         ses.close()
@@ -1227,7 +1426,7 @@ def monitor(case, obs):
   v = []
   _use(case.get('iface'))
   method = case['method']
-  if case['kind'] == 'timeout':
+  if case['kind'] == 'timeout' or case.get('deadline_past'):
     c = obs['runs'][0]['caller']
     if c.get('raise') != 'TimeoutError' or c.get('wrapped'):
       v.append(('timeout-shape', 'expired deadline gave %s' % c))
@@ -1290,8 +1489,10 @@ def monitor(case, obs):
     stream = bytes(run['stream'])
     sizes = run['sizes']
     delivered = 0
+    reset = False
     for s in sizes:
-      if s == 0:
+      if s <= 0:
+        reset = s < 0
         break
       delivered += s
     mg = case.get('mangle')
@@ -1303,7 +1504,7 @@ def monitor(case, obs):
       # the stream ended (0-byte read) before the frame was complete: must be an error, never a value
       if 'raise' not in c:
         v.append(('eof-not-error', 'reply cut after %d of %d bytes gave %s' % (delivered, need, c)))
-      elif c.get('inner_cls') != 'EOFError' and mg not in ('negsize',):
+      elif c.get('inner_cls') != ('ConnectionResetError' if reset else 'EOFError') and mg not in ('negsize',):
         v.append(('eof-not-error', 'reply cut after %d of %d bytes gave %s' % (delivered, need, c)))
       continue
     if declared >= 0 and run['left'] != sum(sizes) - need:
@@ -1432,7 +1633,7 @@ def to_coq(case, obs):
         terms.append(t)
     return terms or None
   method = case['method']
-  if case['kind'] == 'timeout':
+  if case['kind'] == 'timeout' or case.get('deadline_past'):
     return 'CTimeout (%s)' % _caller_term(method, obs['runs'][0]['caller'], False)
   run0 = obs['runs'][0]
   if any(len(r['sent']) > MAX_COQ_BYTES or len(r['stream']) > MAX_COQ_BYTES for r in obs['runs']):
@@ -1448,8 +1649,8 @@ def to_coq(case, obs):
   stream = run0['stream']
   if sent:
     for r in obs['runs']:
-      if r['stream'] != stream:
-        continue             # cannot happen (the peer is deterministic); such a run is left to the monitor
+      if r['stream'] != stream or any(x < 0 for x in r['sizes']):
+        continue             # connection reset by the peer: an exception out of recv is outside the model (monitor only)
       c = r['caller']
       left = r['left']
       if c.get('inner_cls') == 'EOFError' and c.get('faulted'):
@@ -1458,7 +1659,7 @@ def to_coq(case, obs):
                   (C.zlist(r['sizes']), _caller_term(method, c, True), C.zlit(left)))
   return 'CRpc %s %s %s %s %s %s %s %s' % (IFACES[case.get('iface') or 'c14svc'][2], C.bytes_lit(method.encode()), C.blit(_result_cls(method) is not None), args,
                                               C.opt(C.bytes_lit(sent)) if sent else 'None',
-                                              C.blit(case['sock'] == 'varz'), C.bytes_lit(stream), C.lst(runs))
+                                              C.blit(case['sock'] != 'scales'), C.bytes_lit(stream), C.lst(runs))
 
 
 def nontrivial(case, obs):
@@ -1500,6 +1701,15 @@ def stats(cases, obs):
       out['overlap_calls'] = out.get('overlap_calls', 0) + len(o['runs'])
       units = [(_call_case(c0, op), [op['ch']], [r]) for op, r in zip(_calls(c0), o['runs'])]
     elif c0.get('kind') == 'seq':
+      a = out.setdefault('audit_dimensions', {})
+      if c0.get('reentrant'):
+        bump(a, 'sequences_issued_from_completion_callback')
+      if len(set(op.get('inst', 0) for op in _ops(c0))) > 1:
+        bump(a, 'sequences_over_two_instances_of_one_chain')
+      if any(op.get('deadline_past') for op in _ops(c0)):
+        bump(a, 'sequences_with_timed_out_call_and_reconnect')
+      if len(_ops(c0)) >= 20:
+        bump(a, 'sequences_of_20_to_40_calls')
       out['sequences'] += 1
       bump(out['sequence_lengths'], len(_ops(c0)))
       if len(set(op.get('iface') or 'c14svc' for op in _ops(c0))) > 1:
@@ -1516,6 +1726,15 @@ def stats(cases, obs):
         prev = n
     else:
       units = [(c0, c0.get('ops', [{'k': 'timeout'}]), o['runs'])]
+    a = out.setdefault('audit_dimensions', {})
+    if c0.get('alias'):
+      bump(a, 'calls_with_aliased_argument_objects')
+    if c0.get('sock') == 'inline':
+      bump(a, 'cases_on_inline_completing_transport')
+    if c0.get('kind') == 'rpc' and c0.get('ops') and c0['ops'][0].get('k') == 'cut':
+      a['single_split_positions'] = a.get('single_split_positions', 0) + len(c0['ops'])
+    if c0.get('kind') == 'rpc' and any(len(r.get('sent', [])) > 60000 for r in o['runs']):
+      bump(a, 'calls_around_64KiB')
     for c, chs, runs in units:
       bump(out['methods'], (c.get('iface') or 'c14svc') + '.' + str(c.get('method')))
       bump(out['mangles'], c.get('mangle'))
